@@ -2,8 +2,8 @@
 From GV Require Import Prelude GeomM GeomP.
 Open Scope Z_scope.
 
-(* every vertex lies strictly east of the end of the test ray (longitude -180) *)
-Definition west_ok (w : Z) (r : list pt) : Prop := forall v, In v r -> w < px v.
+(* no vertex lies west of the end of the test ray (longitude -180) *)
+Definition west_ok (w : Z) (r : list pt) : Prop := forall v, In v r -> w <= px v.
 
 Definition strict_in (p : pt) (r : list pt) : Prop := ~ on_boundary p r /\ evenodd p r.
 
@@ -89,33 +89,68 @@ Section Ring.
   Variable Hw : west_ok w r.
   Variable Hp : w <= px p.
 
-  Lemma estep_ring e : In e (cyc_edges r) ->
+  Lemma estep_ring e : w < px p -> In e (cyc_edges r) ->
     estep w p e = if on_segb p (fst e) (snd e) then None else Some (west_z p e).
   Proof.
-    destruct e as [a b]. intros H. apply cyc_edges_in in H. destruct H.
+    destruct e as [a b]. intros Hlt H. apply cyc_edges_in in H. destruct H.
     apply estep_geo; auto.
   Qed.
 
-  Lemma bnd_ring : existsb (is_bnd w p) (cyc_edges r) =
+  Lemma bnd_ring : w < px p -> existsb (is_bnd w p) (cyc_edges r) =
                    existsb (fun e => on_segb p (fst e) (snd e)) (cyc_edges r).
   Proof.
-    apply existsb_ext_in. intros e He. unfold is_bnd. rewrite estep_ring by assumption.
+    intros Hlt. apply existsb_ext_in. intros e He. unfold is_bnd. rewrite estep_ring by assumption.
     destruct (on_segb _ _ _); reflexivity.
+  Qed.
+
+  (* the query on the line lon = w (no vertex is west of it): nothing is counted *)
+  Lemma pip_deg : w = px p -> pip w p r = false.
+  Proof.
+    intros ->. rewrite pip_char. destruct (existsb _ _); [reflexivity|].
+    apply par_false. intros [a b] _. unfold is_cnt.
+    destruct (estep_deg p a b) as [-> | ->]; reflexivity.
+  Qed.
+
+  Lemma off_edges : ~ on_boundary p r ->
+    forall e, In e (cyc_edges r) -> on_segb p (fst e) (snd e) = false.
+  Proof.
+    intros H e He. destruct (on_segb p (fst e) (snd e)) eqn:E2; [|reflexivity].
+    exfalso. apply H. apply on_boundary_existsb. apply existsb_exists. exists e; auto.
+  Qed.
+
+  Lemma off_cross_nonzero a b : on_segb p a b = false -> straddles p a b = true ->
+    cross a b p * (py b - py a) <> 0.
+  Proof.
+    intros Hoff Es. apply straddles_cases in Es. intros Hz. apply Z.mul_eq_0 in Hz.
+    destruct Hz as [Hc|Hz]; [|lia].
+    pose proof (on_line_x p a b Hc ltac:(lia) ltac:(lia)). unfold on_segb in Hoff. lia.
+  Qed.
+
+  Lemma east_deg : w = px p -> ~ on_boundary p r -> par (east_z p) (cyc_edges r) = false.
+  Proof.
+    intros E H. rewrite <- (straddle_even p r). apply par_ext. intros [a b] He.
+    pose proof (off_edges H _ He) as Hoff. cbn [fst snd] in Hoff.
+    apply cyc_edges_in in He. destruct He as [Ha Hb]. apply Hw in Ha, Hb.
+    unfold east_z, strad. cbn [fst snd]. destruct (straddles p a b) eqn:Es; [|reflexivity].
+    pose proof (west_side_nonneg p a b ltac:(lia) ltac:(lia) Es).
+    pose proof (off_cross_nonzero a b Hoff Es). cbn [andb]. lia.
   Qed.
 
   Lemma pip_boundary_false : on_boundary p r -> pip w p r = false.
   Proof.
-    intros H. apply on_boundary_existsb in H. rewrite pip_char, bnd_ring, H. reflexivity.
+    intros H. destruct (Z.eq_dec w (px p)) as [E|E]; [apply pip_deg; exact E|].
+    apply on_boundary_existsb in H. rewrite pip_char, bnd_ring, H by lia. reflexivity.
   Qed.
 
   Lemma pip_off_boundary : ~ on_boundary p r -> pip w p r = par (east_z p) (cyc_edges r).
   Proof.
-    intros H. rewrite on_boundary_existsb in H.
-    destruct (existsb (fun e => on_segb p (fst e) (snd e)) (cyc_edges r)) eqn:E; [tauto|].
-    rewrite pip_char, bnd_ring, E.
-    assert (Hoff : forall e, In e (cyc_edges r) -> on_segb p (fst e) (snd e) = false).
-    { intros e He. destruct (on_segb p (fst e) (snd e)) eqn:E2; [|reflexivity].
-      rewrite <- E. symmetry. apply existsb_exists. exists e; auto. }
+    intros H. destruct (Z.eq_dec w (px p)) as [E|E].
+    { rewrite pip_deg, east_deg by assumption. reflexivity. }
+    assert (Hlt : w < px p) by lia.
+    pose proof (off_edges H) as Hoff.
+    assert (Ex : existsb (fun e => on_segb p (fst e) (snd e)) (cyc_edges r) = false).
+    { destruct (existsb _ _) eqn:Ex; [|reflexivity]. apply on_boundary_existsb in Ex. tauto. }
+    rewrite pip_char, bnd_ring, Ex by assumption.
     transitivity (par (west_z p) (cyc_edges r)).
     { apply par_ext. intros e He. unfold is_cnt. rewrite estep_ring, Hoff by assumption.
       destruct (west_z p e); reflexivity. }
@@ -126,12 +161,7 @@ Section Ring.
     intros [a b] He. specialize (Hoff _ He). cbn [fst snd] in Hoff.
     unfold strad, west_z, east_z. cbn [fst snd].
     destruct (straddles p a b) eqn:Es; [|reflexivity]. cbn [andb].
-    apply straddles_cases in Es.
-    assert (Hz : cross a b p * (py b - py a) = 0 -> cross a b p = 0 \/ py b - py a = 0)
-      by (apply Z.mul_eq_0).
-    assert (cross a b p <> 0).
-    { intros Hc. pose proof (on_line_x p a b Hc ltac:(lia) ltac:(lia)).
-      unfold on_segb in Hoff. lia. }
+    pose proof (off_cross_nonzero a b Hoff Es).
     destruct (cross a b p * (py b - py a) <? 0) eqn:?, (0 <? cross a b p * (py b - py a)) eqn:?;
       try reflexivity; lia.
   Qed.
